@@ -94,6 +94,13 @@ func main() {
 			usage()
 		}
 		os.Exit(replay(os.Args[2], os.Args[3]))
+	case "onerun":
+		os.Exit(onerun(os.Args[2:]))
+	case "selftest":
+		if len(os.Args) < 3 {
+			usage()
+		}
+		os.Exit(selftest(os.Args[2:]))
 	default:
 		usage()
 	}
@@ -280,6 +287,111 @@ func trim(s string, n int) string {
 		return s[:n]
 	}
 	return s
+}
+
+// ---------------------------------------------------------------- determinism self-test
+
+// onerun <ID> <tier> <seed> <from> <to>: prints one line per run with
+// everything that must be a pure function of the seed.
+func onerun(args []string) int {
+	if len(args) != 5 {
+		return exitHarness
+	}
+	ck, ok := checks.Get(args[0])
+	if !ok {
+		return exitHarness
+	}
+	tier := checks.Tier(args[1])
+	seed, _ := strconv.ParseUint(args[2], 10, 64)
+	from, _ := strconv.Atoi(args[3])
+	to, _ := strconv.Atoi(args[4])
+	for i := from; i < to; i++ {
+		rs := runSeed(seed, args[0], i)
+		ts := tape.NewSet(rs)
+		res := ck.Run(ts, tier)
+		cls := ""
+		if res.Violation != nil {
+			cls = res.Violation.Class
+		}
+		sc, _ := json.Marshal(res.Scenario)
+		snap, _ := json.Marshal(ts.Snapshot())
+		fmt.Printf("%d sig=%x events=%d execs=%d skipped=%v class=%q scenario=%x tapes=%x\n", i, res.Sig, res.Events, res.Execs, res.Skipped, cls, tape.HashString(string(sc)), tape.HashString(string(snap)))
+	}
+	return exitOK
+}
+
+// selftest <ID>...: every run of a seed range is executed in fresh processes
+// at GOMAXPROCS 1, 4 and 16 (twice at 4) and the per-run lines are diffed.
+func selftest(ids []string) int {
+	self, _ := os.Executable()
+	bad := 0
+	for _, id := range ids {
+		if _, ok := checks.Get(id); !ok {
+			fmt.Fprintln(os.Stderr, "unknown check", id)
+			return exitHarness
+		}
+		n := 40
+		if s := os.Getenv("VERIF_SELFTEST_RUNS"); s != "" {
+			if v, err := strconv.Atoi(s); err == nil {
+				n = v
+			}
+		}
+		var outs []string
+		for _, gmp := range []string{"1", "4", "16", "4"} {
+			dir, _ := os.MkdirTemp("", "verif-selftest-")
+			cmd := exec.Command(self, "onerun", id, "quick", strconv.FormatUint(verifSeed(), 10), "0", strconv.Itoa(n))
+			cmd.Env = append(os.Environ(), "GOMAXPROCS="+gmp, "GORACE=halt_on_error=0 exitcode=0 log_path="+filepath.Join(dir, "race"))
+			o, err := cmd.Output()
+			os.RemoveAll(dir)
+			if err != nil {
+				fmt.Fprintf(os.Stderr, "selftest %s: run failed: %v\n", id, err)
+				return exitHarness
+			}
+			so := string(o)
+			if id == "C10" || id == "C16" {
+				// sharded builds commit sibling shards in Go's map order, which
+				// the simulator cannot own: the number of seam events under a
+				// byte-quota or k-th-step fault depends on it. Verdict,
+				// scenario, tapes and signature must still be identical.
+				var sb strings.Builder
+				for _, f := range strings.Fields(so) {
+					if strings.HasPrefix(f, "events=") {
+						continue
+					}
+					sb.WriteString(f)
+					if strings.HasPrefix(f, "tapes=") {
+						sb.WriteString("\n")
+					} else {
+						sb.WriteString(" ")
+					}
+				}
+				so = sb.String()
+			}
+			outs = append(outs, so)
+		}
+		same := true
+		for _, o := range outs[1:] {
+			if o != outs[0] {
+				same = false
+				a, b := strings.Split(outs[0], "\n"), strings.Split(o, "\n")
+				for i := range a {
+					if i < len(b) && a[i] != b[i] {
+						fmt.Printf("DIVERGENCE %s:\n  %s\n  %s\n", id, a[i], b[i])
+						break
+					}
+				}
+			}
+		}
+		if same {
+			fmt.Printf("selftest %s: %d runs x 4 processes (GOMAXPROCS 1,4,16,4) identical\n", id, n)
+		} else {
+			bad++
+		}
+	}
+	if bad > 0 {
+		return exitHarness
+	}
+	return exitOK
 }
 
 // ---------------------------------------------------------------- replay
